@@ -60,6 +60,8 @@ class PropertyRun:
         self.seed = seed
         self.jobs = jobs
         self.timeout = timeout if tier == "quick" else timeout * 3
+        if os.environ.get("PYVC_TIMEOUT"):  # development aid, never set by the registered commands
+            self.timeout = int(os.environ["PYVC_TIMEOUT"])
         self.t0 = time.time()
         self.reg = load_registry()
         self.repo = Repo()
@@ -76,11 +78,13 @@ class PropertyRun:
         self.extra_checks = []  # static / bounded results
         self.execs = {}
         self._searched = {}
+        self._driver_cache = {}
         self.bounded_search = []
 
     # ------------------------------------------------------------------ deductive part
     def contracts(self):
-        return [c for c in self.reg.contracts.values() if self.pid in c.props and not c.assumed]
+        only = os.environ.get("PYVC_ONLY")  # development aid (never set by the registered commands): restrict to matching functions
+        return [c for c in self.reg.contracts.values() if self.pid in c.props and not c.assumed and (not only or any(x in c.key for x in only.split(",")))]
 
     def generate(self):
         for c in self.contracts():
@@ -242,8 +246,21 @@ class PropertyRun:
             if base is not None and name in base.get("discharged", []) and changed:
                 # passed on the pinned tree, the code it depends on has changed, and it is no longer provable
                 self.handle_failed(name, o, "regressed", changed)
+            elif isinstance(o.contract.replay, dict) and replay_mod.driver_for(o.contract, o) and self._driver_confirms(o):
+                # no back end decided it, but the contract's replay driver (a small search on the REAL code, evaluating the same
+                # clause concretely) exhibits a failing input: that is a violation with a replayed input, not a proof failure
+                self.handle_failed(name, o, "searched")
             else:
                 self.undecided.append(dict(obligation=name, reason="no back end decided it: " + "; ".join(str(x.tried) for x in os_ if x.result != "unsat")[:600]))
+
+    def _driver_confirms(self, o):
+        key = (o.contract.key, o.name)
+        if key not in self._driver_cache:
+            try:
+                self._driver_cache[key] = replay_mod.try_replay(self, o)
+            except Exception as e:  # a crashing driver decides nothing
+                self._driver_cache[key] = (False, "driver crashed: %r" % (e,), None)
+        return bool(self._driver_cache[key][0])
 
     def load_baseline(self):
         p = os.path.join(ROOT, "baseline", self.pid + ".json")
@@ -281,10 +298,14 @@ class PropertyRun:
         with open(os.path.join(rdir, base + ".smt2"), "w") as f:
             f.write(o.smt2)
         rec["why"] = ("the solver refuted the obligation (counter-model attached)" if why == "refuted" else
+                      "no back end decided the obligation (solver output attached); the contract's replay driver found a failing input on the real code"
+                      if why == "searched" else
                       "the obligation was discharged on the pinned tree (baseline/%s.json), the source it depends on has changed (%s) "
                       "and no back end can discharge it any more" % (self.pid, ", ".join(changed or [])))
         confirmed, detail, inputs = (False, "no counter-model", None)
-        if why == "refuted" or o.contract.replay:
+        if why == "searched":
+            confirmed, detail, inputs = self._driver_cache[(o.contract.key, o.name)]
+        elif why == "refuted" or replay_mod.driver_for(o.contract, o):
             confirmed, detail, inputs = replay_mod.try_replay(self, o)
         if not confirmed:
             key = o.contract.qn
@@ -399,7 +420,7 @@ class PropertyRun:
         out = dict(property_id=self.pid, tier=self.tier, seed=self.seed, level=level, coverage=cov,
                    assumptions=sorted(self.assumptions), wall_s=round(time.time() - self.t0, 2), violations=len(self.violations))
         # committed evidence describes /repo itself; runs against a scratch copy (PYVC_REPO) leave it alone
-        edir = os.path.join(ROOT, "evidence") if os.path.realpath(self.repo.root) == "/repo" else os.path.join(ROOT, "scratch", "evidence_other_tree")
+        edir = os.path.join(ROOT, "evidence") if os.path.realpath(self.repo.root) == "/repo" and not os.environ.get("PYVC_ONLY") else os.path.join(ROOT, "scratch", "evidence_other_tree")
         os.makedirs(edir, exist_ok=True)
         with open(os.path.join(edir, self.pid + ".json"), "w") as f:
             json.dump(out, f, indent=1, default=str)
